@@ -102,7 +102,9 @@ Proof.
         destruct (TP.tc_string_list r) as [sr| |] eqn:Esr; cbn [bind]; try discriminate.
         intros E1 E2; injection E1 as <-; injection E2 as <-. cbn [map].
         rewrite (Pc [] c' sc Ec eq_refl), (IHr r' sr eq_refl eq_refl). reflexivity. }
-    rewrite tc_string_tuple, Hm, commas_sepby, TP.join_sepby. reflexivity.
+    transitivity ([ch_lparen] ++ commas O (map tc_string l') ++ [ch_rparen]); [apply tc_string_tuple|].
+    rewrite Hm, commas_sepby. change (T ",") with [TM.ch_comma].
+    rewrite <- (TP.join_sepby [TM.ch_comma] ss). reflexivity.
 Qed.
 
 (* every tree the parser's abstraction function gives a type to can be embedded *)
